@@ -18,7 +18,7 @@ package readahead
 //@   results (n, err)
 //@   requires !rd_closed(this)
 //@   requires [progress] len(p) >= 1
-//@   modifies p[..], ghost rd(this), ghost rd_len(this), ghost rd_closed(this), ghost rd_failed(this)
+//@   modifies p[..], dyn(this).fields, ghost rd(this), ghost rd_len(this), ghost rd_closed(this), ghost rd_failed(this)
 //@   ensures 0 <= n && n <= len(p)
 //@   ensures rd_len(this) == old(rd_len(this)) + n
 //@   ensures forall i in [0, old(rd_len(this))) :: rd(this)[i] == old(rd(this))[i]
@@ -51,12 +51,15 @@ package readahead
 
 //@ func NewImmediate
 //@   requires bufSize >= 1 && bufSize <= 1099511627776 && reader != nil && !rd_closed(reader) && rd_len(reader) == 0
+//@   modifies nothing
 //@   ensures wf(result) && consumed(result) == 0
+//@   ensures fresh(result) && result.r == reader && result.onError == nil
 
 //@ func (*ImmediateReadAhead).Scan
 //@   results (ok)
 //@   requires wf(s)
 //@   requires s.onError != nil ==> err_reports(s.onError) >= 0
+//@   modifies s.token, s.offset, s.end, s.buf, s.eof, s.buf[..], dyn(s.r).fields, ghost rd(s.r), ghost rd_len(s.r), ghost rd_closed(s.r), ghost rd_failed(s.r), ghost err_reports(s.onError)
 //@   ensures wf(s)
 //@   ensures rd_len(s.r) >= old(rd_len(s.r))
 //@   ensures forall i in [0, old(rd_len(s.r))) :: rd(s.r)[i] == old(rd(s.r))[i]
@@ -71,7 +74,8 @@ package readahead
 //@   ensures [line-bytes] ok ==> forall i in [0, len(s.token)) :: s.token[i] == rd(s.r)[old(consumed(s)) + i]
 //@   ensures [end] !ok ==> s.eof && consumed(s) == rd_len(s.r) && old(consumed(s)) == rd_len(s.r)
 //@   ensures [token-in-window] ok ==> ref(s.token) == ref(s.buf) && off(s.token) + len(s.token) <= off(s.buf) + s.offset
-//@   ensures [error-once] s.onError != nil ==> err_reports(s.onError) <= old(err_reports(s.onError)) + 1
+//@   ensures [error-once] s.onError != nil ==> err_reports(s.onError) <= old(err_reports(s.onError)) + 1 && err_reports(s.onError) >= old(err_reports(s.onError))
+//@   ensures [same-callback] s.onError == old(s.onError) && s.r == old(s.r)
 //@   ensures [error-ends] s.onError != nil && err_reports(s.onError) > old(err_reports(s.onError)) ==> s.eof && !old(s.eof) && rd_failed(s.r)
 //@   ensures [error-reported] s.onError != nil && !old(s.eof) && s.eof && rd_failed(s.r) ==> err_reports(s.onError) == old(err_reports(s.onError)) + 1
 //@   ensures [stable] forall a: int :: forall i: int :: allocated_at_entry(a) && !(a == old(ref(s.buf)) && i >= old(off(s.buf) + s.offset)) ==> byteat(a, i) == old(byteat(a, i))
